@@ -20,7 +20,7 @@ func init() {
 		ID:  "C01",
 		Run: runC01,
 		Decided: "the lookup result is GetClosestNInStates(bucketSize, Heard, Waiting, Queried) and the estimator list the 4-state call (R1); that selection sorts before iterating, appends only state-matching entries in iteration order and returns the list or its prefix [:n] (R2); sort() sorts and TryAdd invalidates the order on every insertion; the comparator is true exactly when the left distance compares less (three-valued evaluation) (R3); " +
-			"TryAdd is called only from updateState, every response-sourced ID crosses a self filter, update lists are built only from the seeds (NearestPeers(key, bucketSize)) or the filtered response (R4); a failed dial or request reports the peer as unreachable and nothing else, a success as queried, and updateState applies those transitions (R5); the response cap and query filter (R6). Added after the seeded rounds: every peer of update.heard other than self reaches TryAdd on every iteration path (R4); the query filter judges the peer on the merged response+peerstore address list that is then stored (R6); the accelerated client's batches are ClosestN(key, table, tried+step)[tried:] with tried advancing by step (R8, shared C16.R5).",
+			"TryAdd is called only from updateState, every response-sourced ID crosses a self filter, update lists are built only from the seeds (NearestPeers(key, bucketSize)) or the filtered response (R4); a failed dial or request reports the peer as unreachable and nothing else, a success as queried, and updateState applies those transitions (R5); the response cap and query filter (R6). Added after the seeded rounds: every peer of update.heard other than self reaches TryAdd on every iteration path (R4); the query filter judges the peer on the merged response+peerstore address list that is then stored (R6); the accelerated client's batches are ClosestN(key, table, tried+step)[tried:] with tried advancing by step (R8, shared C16.R5). Round 4: the lookup's per-response IP-group limit is the diversity filter's per-table limit, each of the filter's limits is stored from its own constructor argument and read only where it applies (R6).",
 		NotDecided: "the XOR metric itself (library go-keyspace); which peers a network names; event contents beyond slice identity.",
 	})
 }
